@@ -31,6 +31,33 @@ def engine(chk, lines):
     out, _, _ = chk.run_impl_js("prog-describe", [l + "\t" + a + "\t" + b for l, a, b in zip(lines, s1, s3)])
     return out + ["(js-host-crash)\t(oracle fail c04.jscrash)"] * (len(lines) - len(out))
 
+def engine_rt(chk, lines):
+    """Runtype level: validators built from the real classes (with descriptions) → real describe() → the text compiled by
+    the real compiler → both validators on the same values"""
+    st1, _, _ = chk.run_impl_js("rtd", lines)
+    gen2 = []
+    for r in st1 + ["(host-crash)"] * (len(lines) - len(st1)):
+        rep = vcheck.split_reply(r)[0]
+        try:
+            x = vcheck.sx_parse(rep)
+        except Exception:
+            x = None
+        if isinstance(x, list) and x and x[0] == "described":
+            src = json.loads('"' + x[1][1] + '"') + "\nparse.buildParsers<{ E0: CodecE0 }>();\n"
+            gen2.append('(x 0 0 (("entry.ts" ' + json.dumps(src) + ')))')
+        else:
+            gen2.append('(x 0 0 (("entry.ts" "")))')
+    s3, _, _ = chk.run_impl("compile", gen2)
+    s3 = [vcheck.split_reply(x)[0] for x in s3] + ["(compiler-crash)"] * (len(lines) - len(s3))
+    out, _, _ = chk.run_impl_js("rtd", [l + "\t" + b for l, b in zip(lines, s3)])
+    return out + ["(js-host-crash)\t(oracle fail c04.jscrash)"] * (len(lines) - len(out))
+
+def _pass_rt(seed, count, nvals, label):
+    def p(chk):
+        lines = chk.gen_js("rtd", seed, count, nvals)
+        return vcheck.corr_pass(chk, "rtd", lines, label, engine=engine_rt, oracle_filter=vcheck.tag_filter(TAGS), known_matcher=known(chk))
+    return p
+
 def known(chk):
     # every finding lists the oracle tags it can explain (known-findings.json `oracle_tags`): the naming findings only
     # explain a hash256 difference, never a different acceptance or a compile failure
@@ -54,8 +81,8 @@ RULE = ("generated single-export TsCore programs are compiled by the REAL compil
 def run(chk):
     chk.build_rust(); chk.build_js()
     quick = chk.tier == "quick"
-    passes = [_corpus] + ([_pass(chk.seed * 100 + 9, 1200, 10, "describe(random)")] if quick else
-                          [_pass(chk.seed * 100 + k, 6000, 16, f"describe(random#{k})") for k in range(6)])
+    passes = [_corpus] + ([_pass(chk.seed * 100 + 9, 1200, 10, "describe(random)"), _pass_rt(chk.seed * 100 + 10, 800, 8, "describe(runtypes)")] if quick else
+                          [_pass(chk.seed * 100 + k, 6000, 16, f"describe(random#{k})") for k in range(6)] + [_pass_rt(chk.seed * 100 + 20 + k, 6000, 10, f"describe(runtypes#{k})") for k in range(3)])
     return vcheck.generic_run(chk, MODULES, AUDIT, passes,
         ["C15: Model/Describe.lean models describeTypeExpr of every class, describeObjectMember, collectDescribeRefs, BaseRefRuntype.describe and ParserFromRuntype.describe by hand (text level)",
          "C15: the order of union members in the printed text is the compiler's BTreeSet order: Model/IR.lean models the derived Ord of RuntypeKind and the debug_print sort keys; printed names of generic instances are NOT modelled (those programs are decided by the round trip only)"],
